@@ -419,6 +419,30 @@ impl<'c, T: Sut> Sim<'c, T> {
         }
     }
 
+    /// C18: the sum of used bytes is at least what the model says must be stored.
+    fn check_lower_bounds(&mut self) -> R<()> {
+        if !self.caps.heap || self.coded != 0 {
+            return Ok(());
+        }
+        for i in 0..self.pop.len() {
+            let Some(h) = self.heap_of(i)? else { continue };
+            let used = used_sum(&h);
+            let vals: Vec<&T::Val> = self.pop[i].model.iter().map(|m| &m.1).collect();
+            let lb = T::lower_bound(&vals);
+            if used < lb {
+                let d = format!(
+                    "instance #{} ({}): heap_size reports {used} used bytes in {:?}, but the {} stored items need at least {lb} (payload bytes + index entries, after collapsing)",
+                    self.pop[i].uid,
+                    T::name(),
+                    h,
+                    vals.len()
+                );
+                return Err(self.stop(pbit(18), "heap/used-below-stored", d));
+            }
+        }
+        Ok(())
+    }
+
     fn in_contract(&self, inst: &Inst<T>, v: &T::Val) -> bool {
         if !inst.coded_mode {
             return true;
@@ -710,6 +734,12 @@ impl<'c, T: Sut> Sim<'c, T> {
         let peers = self.peers(ti);
         for &i in &peers {
             let before = if self.cfg.prop == 18 { self.heap_of(i)? } else { None };
+            let lb_before = if self.cfg.prop == 18 && self.coded == 0 {
+                let vals: Vec<&T::Val> = self.pop[i].model.iter().map(|m| &m.1).collect();
+                T::lower_bound(&vals)
+            } else {
+                0
+            };
             let owner = self.pop[i].owner;
             let nonempty = !self.pop[i].model.is_empty();
             let r = {
@@ -739,6 +769,12 @@ impl<'c, T: Sut> Sim<'c, T> {
                     if shrunk {
                         let d = format!("instance #{}: a reported capacity shrank on clear: before {:?} after {:?}", self.pop[i].uid, b, a);
                         return Err(self.stop(pbit(18), "heap/capacity-shrank-on-clear", d));
+                    }
+                    // no pushed payload is accounted any more
+                    let (ub, ua) = (used_sum(&b), used_sum(&a));
+                    if ua + lb_before > ub {
+                        let d = format!("instance #{}: after clear {ua} bytes are still reported used (before: {ub}, of which at least {lb_before} were payload and index entries of the cleared items)", self.pop[i].uid);
+                        return Err(self.stop(pbit(18), "heap/payload-accounted-after-clear", d));
                     }
                 }
             }
@@ -1414,6 +1450,9 @@ pub fn exec<T: Sut>(ops: &[Op<T::Val>], cfg: &RunCfg) -> ExecOut {
             }
             if sim.caps.is_stack && (sim.cfg.prop == 3 || step % 4 == 0) {
                 sim.whole_all()?;
+            }
+            if sim.cfg.prop == 18 {
+                sim.check_lower_bounds()?;
             }
             steps_done = step + 1;
         }
